@@ -8,8 +8,13 @@
 //!   cfg: g<0|1>.m<max_field_section_size>.x<0|1>.d<0|1>[.w<0|1>.n<max_webtransport_sessions>]
 //!   budget: `-` (writes accepted whole) or `<initial per-stream budget>:<k1>.<k2>...` (whenever a writer is blocked,
 //!   the next k of the cycle is granted to every blocked stream: every write sees Pending, then k bytes at a time)
-//!   prog (comma separated): peer | poll | acc | req:<method> | resp:<status> | data:<chunk.chunk|-> | trailers | finish
-//!        | shutdown:<n> | drop | stop:<code> | sel:<i>
+//!   prog (comma separated): peer[:<hex>] (the peer opens its control stream and sends these bytes, default 000400, then
+//!        the endpoint is polled) | pframe:<hex> (further bytes on the peer's control stream, then polled) | poll
+//!        | acc[:<kind>[:<end>]] (server: the next client stream arrives carrying the request <kind> and ending with
+//!          F fin (default) / N nothing / R<code> reset / S<code> fin + STOP_SENDING for our half; then accept + resolve)
+//!        | req:<method> | resp:<status> | data:<chunk.chunk|-> | trailers | finish | recv (read body and trailers)
+//!        | sstop:<code> (peer STOP_SENDING on the current stream) | shutdown:<n> | drop | stop:<code> | sel:<i>
+//!        | rehdr (calls the public conn.inner.send_control_stream_headers() again)
 //!   output: `ok res=<one letter per op> s<id>=<hex>[/F] ...` for every stream h3 can write on.
 use bytes::{Buf, Bytes};
 use h3::proto::frame::{Frame, SettingId, Settings};
@@ -150,6 +155,30 @@ async fn poll_once<F: Future>(f: F) -> Option<F::Output> {
     .await
 }
 
+/// what the scripted client sends on a request stream, by kind
+fn request_bytes(kind: &str) -> &'static str {
+    match kind {
+        // HEADERS(:method GET, :scheme https, :authority a, :path /)
+        "get" => "01080000d1d7500161c1",
+        // HEADERS(POST ...) DATA "hi" HEADERS(trailers x-t: 1)
+        "post" => "01080000d4d750811fc100026869010800002bf2b27f810f",
+        // HEADERS(CONNECT, :authority a)
+        "connect" => "01060000cf50811f",
+        // GET with a 200-byte header value
+        "big" => "0140d40000d1d7500161c121787f496161616161616161616161616161616161616161616161616161616161616161616161616161616161616161616161616161616161616161616161616161616161616161616161616161616161616161616161616161616161616161616161616161616161616161616161616161616161616161616161616161616161616161616161616161616161616161616161616161616161616161616161616161616161616161616161616161616161616161616161616161616161616161616161616161616161616161",
+        // a field section without :method
+        "nometh" => "01030000c1",
+        // a field line indexing a static entry that does not exist
+        "badqpack" => "01030000ff",
+        // DATA before HEADERS
+        "data1st" => "0001aa",
+        // an unknown frame, then the GET
+        "unk" => "2103aabbcc01080000d1d7500161c1",
+        "none" => "",
+        _ => panic!("driver: request kind"),
+    }
+}
+
 struct Cfg {
     grease: bool,
     mfs: u64,
@@ -255,22 +284,48 @@ async fn server_app(w: Shared, cfg: Cfg, ops: Vec<String>, cancel: Rc<Cell<bool>
             None => (&op[..], ""),
         };
         match k {
-            "peer" => {
-                apply_event(&w, "U2");
-                apply_event(&w, "2:c:000400");
-                let _ = poll_once(conn.accept()).await;
-                res.push('o');
-            }
-            "poll" => {
-                let _ = poll_once(conn.accept()).await;
-                res.push('o');
+            "peer" | "pframe" | "poll" => {
+                if k == "peer" {
+                    apply_event(&w, "U2");
+                    apply_event(&w, &format!("2:c:{}", if a.is_empty() { "000400" } else { a }));
+                } else if k == "pframe" {
+                    apply_event(&w, &format!("2:c:{}", a));
+                }
+                // accept() with nothing to accept: drives poll_control; may answer None (after sending its final GOAWAY)
+                match cancellable(conn.accept(), &cancel).await {
+                    Some(Ok(None)) => res.push('n'),
+                    Some(Ok(Some(_resolver))) => res.push('r'),
+                    Some(Err(_)) => res.push('e'),
+                    None => res.push('o'),
+                }
             }
             "acc" => {
                 let id = next_peer;
                 next_peer += 4;
+                let mut it = a.splitn(2, ':');
+                let kind = match it.next() {
+                    Some("") | None => "get",
+                    Some(x) => x,
+                };
+                let end = it.next().unwrap_or("F");
                 apply_event(&w, &format!("B{}", id));
-                apply_event(&w, &format!("{}:c:01080000d1d7500161c1", id));
-                apply_event(&w, &format!("{}:F", id));
+                let bytes = request_bytes(kind);
+                if !bytes.is_empty() {
+                    apply_event(&w, &format!("{}:c:{}", id, bytes));
+                }
+                match &end[..1] {
+                    "F" => {
+                        apply_event(&w, &format!("{}:F", id));
+                    }
+                    "R" => {
+                        apply_event(&w, &format!("{}:R{}", id, &end[1..]));
+                    }
+                    "S" => {
+                        apply_event(&w, &format!("{}:F", id));
+                        apply_event(&w, &format!("{}:S{}", id, &end[1..]));
+                    }
+                    _ => {}
+                }
                 match cancellable(conn.accept(), &cancel).await {
                     Some(Ok(Some(resolver))) => match cancellable(resolver.resolve_request(), &cancel).await {
                         Some(Ok((_req, s))) => {
@@ -286,6 +341,39 @@ async fn server_app(w: Shared, cfg: Cfg, ops: Vec<String>, cancel: Rc<Cell<bool>
                     None => res.push('c'),
                 }
             }
+            "recv" => match cur.and_then(|i| streams[i].as_mut()) {
+                Some(s) => {
+                    let mut ok = 'o';
+                    loop {
+                        match cancellable(s.recv_data(), &cancel).await {
+                            Some(Ok(Some(_))) => {}
+                            Some(Ok(None)) => break,
+                            Some(Err(_)) => {
+                                ok = 'e';
+                                break;
+                            }
+                            None => {
+                                ok = 'c';
+                                break;
+                            }
+                        }
+                    }
+                    if ok == 'o' {
+                        ok = r(cancellable(s.recv_trailers(), &cancel).await);
+                    }
+                    res.push(ok)
+                }
+                None => res.push('-'),
+            },
+            "sstop" => match cur.and_then(|i| streams[i].as_mut()) {
+                Some(s) => {
+                    let id = s.send_id().into_inner();
+                    apply_event(&w, &format!("{}:S{}", id, a));
+                    res.push('o')
+                }
+                None => res.push('-'),
+            },
+            "rehdr" => res.push(r(cancellable(conn.inner.send_control_stream_headers(), &cancel).await)),
             "resp" => match cur.and_then(|i| streams[i].as_mut()) {
                 Some(s) => {
                     let resp = http::Response::builder().status(a.parse::<u16>().unwrap()).body(()).unwrap();
@@ -324,16 +412,27 @@ async fn client_app(w: Shared, cfg: Cfg, ops: Vec<String>, cancel: Rc<Cell<bool>
             None => (&op[..], ""),
         };
         match k {
-            "peer" => {
-                apply_event(&w, "U3");
-                apply_event(&w, "3:c:000400");
-                let _ = poll_once(poll_fn(|cx| conn.poll_close(cx))).await;
-                res.push('o');
+            "peer" | "pframe" | "poll" => {
+                if k == "peer" {
+                    apply_event(&w, "U3");
+                    apply_event(&w, &format!("3:c:{}", if a.is_empty() { "000400" } else { a }));
+                } else if k == "pframe" {
+                    apply_event(&w, &format!("3:c:{}", a));
+                }
+                match poll_once(poll_fn(|cx| conn.poll_close(cx))).await {
+                    Some(_) => res.push('e'),
+                    None => res.push('o'),
+                }
             }
-            "poll" => {
-                let _ = poll_once(poll_fn(|cx| conn.poll_close(cx))).await;
-                res.push('o');
-            }
+            "sstop" => match cur.and_then(|i| streams[i].as_mut()) {
+                Some(s) => {
+                    let id = s.id().into_inner();
+                    apply_event(&w, &format!("{}:S{}", id, a));
+                    res.push('o')
+                }
+                None => res.push('-'),
+            },
+            "rehdr" => res.push(r(cancellable(conn.inner.send_control_stream_headers(), &cancel).await)),
             "req" => {
                 let req = http::Request::builder().method(a).uri("https://a/").body(()).unwrap();
                 match cancellable(sr.send_request(req), &cancel).await {
